@@ -105,4 +105,9 @@ theorem ax_facdiff_def : (∀ (P : Finset K) (u : K → ℝ) (Q : Finset K) (v :
   simp only [one_mul, hw k, Real.rpow_eq_pow]
   exact Real.rpow_sub (hpos k) (u k) (v k)
 
+theorem ax_facdiff_ratio : (∀ (P : Finset K) (u : K → ℝ) (Q : Finset K) (v : K → ℝ), (((0 : ℝ) < (FacS f1 (Q) (v) ((1 : ℝ)))) → (((FacDiff f1 (P) (u) (Q) (v)) * (FacS f1 (Q) (v) ((1 : ℝ)))) = (FacS f1 (P) (u) ((1 : ℝ)))))) := by
+  intro P u Q v h
+  unfold FacDiff
+  exact div_mul_cancel₀ _ (ne_of_gt h)
+
 end
